@@ -19,6 +19,23 @@ type Rec struct {
 	trace string
 	mem   []map[string]interface{}
 	keep  bool
+	gen   int64 // number of traces started so far
+}
+
+// Gen returns the generation of the current trace (it changes with every SetTrace).
+func (r *Rec) Gen() int64 {
+	r.mu.Lock()
+	defer r.mu.Unlock()
+	return r.gen
+}
+
+// EmitGen records the event only while the trace of generation gen is still the current one: an observer
+// that belongs to one scenario must not write into the trace of the next.
+func (r *Rec) EmitGen(gen int64, ev string, kv ...interface{}) {
+	if r.Gen() != gen {
+		return
+	}
+	r.Emit(ev, kv...)
 }
 
 // NewRec opens (truncates) path.
@@ -34,6 +51,7 @@ func NewRec(path string) (*Rec, error) {
 func (r *Rec) SetTrace(id string, cfg map[string]interface{}) {
 	r.mu.Lock()
 	r.trace = id
+	r.gen++
 	r.mu.Unlock()
 	kv := []interface{}{}
 	for k, v := range cfg {
